@@ -63,15 +63,22 @@ def resolve(text, vals, named, rng):
     else:
         ptext = re.sub(MARK + r'(\d+)' + MARK, '%s', text)
         params = [vals[k] for k in order]
-    ltext = re.sub(MARK + r'(\d+)' + MARK, lambda m: values.lit(vals[int(m.group(1))]), text)
+    ltext = re.sub(MARK + r'(\d+)' + MARK, lambda m: lit_or_list(vals[int(m.group(1))]), text)
     return ptext, params, ltext, len(order)
 
 
-def gen_param_case(rng):
+def lit_or_list(v):
+    """BQL literal text of a parameter value; a list is the list literal `(x, y)` / `(x,)` (what IN compiles from)."""
+    if isinstance(v, list):
+        return '(' + ', '.join(values.lit(x) for x in v) + (',' if len(v) == 1 else '') + ')'
+    return values.lit(v)
+
+
+def gen_param_case(rng, gen_cls=None):
     ncols = rng.randint(2, 5)
     cols = [(n, rng.choice(exprgen.ALL_TYPES)) for n in 'abcde'[:ncols]]
     rows = [tuple(values.gen_value(rng, PY[t], 0.2) for _, t in cols) for _ in range(rng.choice([1, 2, 4, 6]))]
-    g = ParamGen(rng, cols, rng.randint(1, 3))
+    g = (gen_cls or ParamGen)(rng, cols, rng.randint(1, 3))
     targets = [g.expr(rng.choice(exprgen.ALL_TYPES)) for _ in range(rng.randint(1, 3))]
     where = g.expr(T_BOOL) if rng.random() < 0.6 else None
     order = g.expr(rng.choice([T_INT, T_DEC, T_STR])) if rng.random() < 0.3 else None
@@ -93,6 +100,39 @@ def gen_param_case(rng):
     return {'cols': cols, 'rows': rows, 'ptext': ptext, 'params': params, 'ltext': ltext, 'nph': nph,
             'targets': tcoq, 'nvis': len(targets), 'where': where.coq if where else None, 'spec': spec,
             'wrap': wrap}
+
+
+class ListParamGen(ParamGen):
+    """As ParamGen, and the right operand of IN / NOT IN may be ONE placeholder bound to a Python list (the only way to
+    parametrise a membership test; the literal spelling is the list literal `(x, y)`)."""
+
+    def gen_bool(self, d):
+        if self.rng.random() < 0.5:
+            t = self.rng.choice([T_INT, T_DEC, T_STR, T_DATE])
+            a = self.expr(t, d)
+            items = [self.rng.choice(values.POOLS[PY[t]]) for _ in range(self.rng.randint(1, 4))]
+            items = [abs(v) if t in (T_INT, T_DEC) else v for v in items]      # a list literal holds literals, not -x
+            items = [D(values.lit(v)) if t == T_DEC else v for v in items]
+            neg = self.rng.random() < 0.4
+            k = len(self.vals)
+            self.vals.append(items)
+            return exprgen.mk(f'({a.text} {"NOT IN" if neg else "IN"} {MARK}{k}{MARK})',
+                              f'(EIn {core.cbool(neg)} {a.coq} (Some {clist([values.to_coq(v) for v in items])}))', T_BOOL,
+                              'EIn/param' + ('/not' if neg else ''), a)
+        return super().gen_bool(d)
+
+
+def param_values(c):
+    return list(c['params'].values()) if isinstance(c['params'], dict) else list(c['params'])
+
+
+def gen_list_param_case(rng):
+    """a placeholder statement with at least one list-valued parameter (positional or named; in targets, WHERE, ORDER BY
+    expressions or inside the wrapped subquery)"""
+    while True:
+        c = gen_param_case(rng, ListParamGen)
+        if any(isinstance(v, list) for v in param_values(c)):
+            return c
 
 
 def run_param_impl(c):
@@ -532,6 +572,17 @@ LEDGER_PARAM_STATEMENTS = [
     ('SELECT account, sum(position) FROM year = %s WHERE account ~ %s GROUP BY account ORDER BY account', [2020, 'Cash'],
      "SELECT account, sum(position) FROM year = 2020 WHERE account ~ 'Cash' GROUP BY account ORDER BY account"),
     ('SELECT date FROM #entries WHERE type = %s', ['price'], "SELECT date FROM #entries WHERE type = 'price'"),
+    ('SELECT date, account WHERE account IN %s', [['Assets:Cash', 'Expenses:Food']],
+     "SELECT date, account WHERE account IN ('Assets:Cash', 'Expenses:Food')"),
+    ('SELECT date, account, number WHERE account NOT IN %(a)s AND year IN %(y)s', {'a': ['Assets:Cash'], 'y': [2019, 2020]},
+     "SELECT date, account, number WHERE account NOT IN ('Assets:Cash',) AND year IN (2019, 2020)"),
+    ('BALANCES FROM year IN %s WHERE account IN %s', [[2020, 2021], ['Assets:Cash', 'Assets:Stock']],
+     "BALANCES FROM year IN (2020, 2021) WHERE account IN ('Assets:Cash', 'Assets:Stock')"),
+    ("JOURNAL 'Cash' FROM month NOT IN %(m)s", {'m': [2, 3]}, "JOURNAL 'Cash' FROM month NOT IN (2, 3)"),
+    ('SELECT date FROM #entries WHERE type IN %s AND date IN %s', [['price', 'open'], [datetime.date(2020, 1, 1), datetime.date(2020, 3, 2)]],
+     "SELECT date FROM #entries WHERE type IN ('price', 'open') AND date IN (2020-01-01, 2020-03-02)"),
+    ('SELECT account FROM #postings WHERE account IN (SELECT account FROM #accounts WHERE account NOT IN %s)', [['Income:Job', 'Equity:Opening']],
+     "SELECT account FROM #postings WHERE account IN (SELECT account FROM #accounts WHERE account NOT IN ('Income:Job', 'Equity:Opening'))"),
 ]
 
 
@@ -614,6 +665,221 @@ def run_ledger_history(h, want_table=None):
     return got, [want_table[i] for i in h]
 
 
+# ---- JSON-safe replay records for parameter cases
+def enc(v):
+    if isinstance(v, bool) or v is None or isinstance(v, (int, str)):
+        return v
+    if isinstance(v, D):
+        return {'$decimal': str(v)}
+    if isinstance(v, datetime.date):
+        return {'$date': v.isoformat()}
+    if isinstance(v, dict):
+        return {'$map': [[k, enc(x)] for k, x in v.items()]}
+    return [enc(x) for x in v]
+
+
+def dec(v):
+    if isinstance(v, dict):
+        if '$decimal' in v:
+            return D(v['$decimal'])
+        if '$date' in v:
+            return datetime.date.fromisoformat(v['$date'])
+        return {k: dec(x) for k, x in v['$map']}
+    if isinstance(v, list):
+        return [dec(x) for x in v]
+    return v
+
+
+def param_record(c):
+    return {'kind': 'param-case', 'cols': [list(x) for x in c['cols']], 'rows': enc([list(r) for r in c['rows']]),
+            'ptext': c['ptext'], 'params': enc(c['params']), 'ltext': c['ltext']}
+
+
+def replay_param_record(rec):
+    c = {'cols': [tuple(x) for x in rec['cols']], 'rows': [tuple(r) for r in dec(rec['rows'])], 'ptext': rec['ptext'],
+         'params': dec(rec['params']), 'ltext': rec['ltext']}
+    wp, wl = run_param_impl(c)
+    return wp == wl
+
+
+# ---- (c') histories containing statements that do NOT complete: refused by the compiler after their FROM clause was
+# processed, or PRINT (which a cursor refuses to run and the shell runs through Connection.compile). "any other executions in
+# between never change [a result] or make it fail": every step must give what a fresh connection in a fresh process gives.
+REJ_FROM_EXPR = ['CLOSE ON 2020-03-15', 'OPEN ON 2020-02-01', 'CLEAR', 'OPEN ON 2020-02-01 CLOSE ON 2020-03-15 CLEAR', 'year = 2020',
+                 "has_account('Cash')"]
+DEFAULT_TABLE_STATEMENTS = [
+    'SELECT count(*)', 'SELECT *', 'SELECT date, account, position', 'SELECT account, sum(number) GROUP BY account ORDER BY account',
+    'SELECT account, sum(position) FROM CLEAR GROUP BY account ORDER BY account',
+    'SELECT account, sum(position) FROM OPEN ON 2020-02-01 CLOSE ON 2020-03-15 GROUP BY account ORDER BY account',
+    'SELECT date, narration FROM year = 2020 WHERE number > 0', 'SELECT balance WHERE account ~ "Cash"',
+    'BALANCES', 'BALANCES AT cost', 'BALANCES FROM CLEAR', 'JOURNAL', 'JOURNAL "Cash"', 'JOURNAL "Cash" AT units FROM CLOSE ON 2020-03-15',
+    'SELECT account WHERE account IN (SELECT account FROM CLOSE ON 2020-02-15)',
+    'SELECT count(*) FROM #prices', 'SELECT date, type FROM #entries', 'SELECT * FROM (SELECT date, number WHERE number > 0)',
+    'SELECT 1 + 1 AS two FROM #', 'PRINT', 'PRINT FROM year = 2020 AND month = 2',
+]
+ABSENT_NAMES = ['nosuch', 'zz_q']
+
+
+def ledger_tables():
+    """[(table name, [column names])] of a Beancount connection, introspected"""
+    import os
+    path = _ledger_path()
+    try:
+        conn = impl.beanquery.connect('beancount:' + path)
+        return [(n, sorted(t.columns)) for n, t in sorted(conn.tables.items()) if n and t.columns]
+    finally:
+        os.unlink(path)
+
+
+def gen_rejected_statement(rng, tabs):
+    """a statement with a FROM clause (named table / subquery / FROM expression with OPEN, CLOSE, CLEAR) that the compiler
+    refuses for a reason located AFTER the FROM clause; or a refused PRINT / BALANCES / JOURNAL"""
+    name, cols = rng.choice(tabs)
+    col = rng.choice(cols)
+    bad = rng.choice(ABSENT_NAMES)
+    k = rng.randrange(10)
+    if k < 4:
+        frm, inner = f'#{name}', col
+    elif k < 6:
+        frm, inner = f'(SELECT {col} AS d FROM #{name})', 'd'
+    else:
+        frm, inner = rng.choice(REJ_FROM_EXPR), 'date'
+    r = rng.randrange(12)
+    if r == 0:
+        return rng.choice([f'PRINT FROM {bad} = 1', f'BALANCES FROM {rng.choice(REJ_FROM_EXPR)} WHERE {bad} = 1',
+                           f'BALANCES AT {bad}', f"JOURNAL 'Cash' AT cost FROM {bad} = 1", f'BALANCES FROM {bad}(date)'])
+    return [
+        f'SELECT {bad} FROM {frm}',
+        f'SELECT {inner}, {bad} FROM {frm}',
+        f'SELECT {inner} FROM {frm} WHERE {bad} = 1',
+        f'SELECT {inner} FROM {frm} WHERE {bad}({inner})',
+        f'SELECT nosuchfn({inner}) FROM {frm}',
+        f'SELECT {inner} FROM {frm} ORDER BY 9',
+        f'SELECT {inner} FROM {frm} ORDER BY {bad} DESC',
+        f'SELECT {inner}, count(*) FROM {frm} GROUP BY {bad}',
+        f'SELECT {inner}, count(*) FROM {frm} GROUP BY 5',
+        f'SELECT {inner} FROM {frm} WHERE count({inner}) > 1',
+        f'SELECT sum(count({inner})) FROM {frm}',
+        f'SELECT {inner} FROM {frm} WHERE {inner} IN (SELECT {bad} FROM #{name})',
+    ][r]
+
+
+def gen_rejected_history(rng, tabs):
+    """2-7 steps (how, text): how = 'execute' (Connection.execute), 'cursor' (one cursor object shared by all such steps),
+    'shell' (Connection.compile + execute_query / execute_print, the route of the interactive shell)"""
+    steps = []
+    for _ in range(rng.randint(2, 6)):
+        how = rng.choice(['execute', 'execute', 'cursor', 'cursor', 'shell'])
+        r = rng.random()
+        if r < 0.45:
+            steps.append((how, gen_rejected_statement(rng, tabs)))
+        elif r < 0.9:
+            steps.append((how, rng.choice(DEFAULT_TABLE_STATEMENTS)))
+        else:
+            steps.append((how, rng.choice(LEDGER_STATEMENTS)))
+    if rng.random() < 0.7:
+        steps.append((rng.choice(['execute', 'cursor', 'shell']), rng.choice(DEFAULT_TABLE_STATEMENTS[:15])))
+    return steps
+
+
+def _run_step(conn, cur, how, text):
+    import io
+    from beanquery import query_execute
+    try:
+        if how == 'shell':
+            q = conn.compile(conn.parse(text))
+            if type(q).__name__ == 'EvalPrint':
+                buf = io.StringIO()
+                query_execute.execute_print(q, buf)
+                return [0, 'printed', buf.getvalue()]
+            desc, rows = query_execute.execute_query(q)
+            return [0, [d.name for d in desc], [repr(r) for r in rows]]
+        c = cur if how == 'cursor' else conn.cursor()
+        c.execute(text)
+        return [0, [d.name for d in c.description], [repr(r) for r in c.fetchall()]]
+    except Exception as e:  # noqa: BLE001
+        return ['exception', impl.exc_class(e), str(e)[:120]]
+
+
+def _route(how):
+    return 'shell' if how == 'shell' else 'api'
+
+
+def _fresh_step(key):
+    """(route, text) alone on a fresh connection in a FRESH PROCESS"""
+    import os
+    path = _ledger_path()
+    try:
+        conn = impl.beanquery.connect('beancount:' + path)
+        return _run_step(conn, conn.cursor(), 'shell' if key[0] == 'shell' else 'execute', key[1])
+    finally:
+        os.unlink(path)
+
+
+def _rejected_history_got(steps):
+    import os
+    path = _ledger_path()
+    try:
+        conn = impl.beanquery.connect('beancount:' + path)
+        cur = conn.cursor()
+        return [_run_step(conn, cur, how, text) for how, text in steps]
+    finally:
+        os.unlink(path)
+
+
+def show_steps(steps):
+    return ' ; '.join(f'{how}({text!r})' for how, text in steps)
+
+
+def rejected_history_stream(tier, rng):
+    from . import shrink
+    tabs = ledger_tables()
+    hs = [gen_rejected_history(rng, tabs) for _ in range(160 if tier == 'quick' else 2500)]
+    keys = sorted({(_route(how), text) for h in hs for how, text in h})
+    want = dict(zip(keys, fresh_process_map(_fresh_step, keys)))
+    violations, seen = [], set()
+    hist = {'how': {}, 'refused_steps': 0, 'completed_steps': 0, 'steps_after_a_refusal': 0, 'print_via_shell': 0, 'length': {}}
+    for h, got in zip(hs, fresh_process_map(_rejected_history_got, hs)):
+        hist['length'][len(h)] = hist['length'].get(len(h), 0) + 1
+        refused = False
+        for how, text in h:
+            w = want[(_route(how), text)]
+            hist['how'][how] = hist['how'].get(how, 0) + 1
+            hist['steps_after_a_refusal'] += refused
+            hist['refused_steps'] += w[0] != 0
+            hist['completed_steps'] += w[0] == 0
+            hist['print_via_shell'] += w[:2] == [0, 'printed']
+            refused = refused or w[0] != 0 or w[:2] == [0, 'printed']
+        exp = [want[(_route(how), text)] for how, text in h]
+        if got == exp or len(seen) >= 3:
+            continue
+        k = next(i for i, (g, w) in enumerate(zip(got, exp)) if g != w)
+        last = h[k]
+
+        def fails_many(cands):
+            outs = fresh_process_map(_rejected_history_got, [cd + [last] for cd in cands])
+            return [o[-1] != exp[k] for o in outs]
+        pre = shrink.ddmin_batch(h[:k], fails_many) if k >= 2 else h[:k]
+        steps = pre + [last]
+        got2 = fresh_process_map(_rejected_history_got, [steps])[0]
+        sig = 'rejected-history:' + show_steps(steps)
+        if sig in seen:
+            continue
+        seen.add(sig)
+        violations.append(core.Violation(
+            'rejected-history', f'on one connection, after {show_steps(pre)} the step {show_steps([last])} gives {got2[-1]} but alone on a '
+            f'fresh connection it gives {exp[k]}',
+            {'kind': 'rejected-history', 'ledger': LEDGER_SRC, 'steps': [list(x) for x in steps], 'got': got2,
+             'fresh': [want[(_route(how), text)] for how, text in steps]}, signature=sig))
+    for key in keys:
+        if want[key][0] != 0:
+            hist.setdefault('refusal_kinds_of_distinct_statements', {}).setdefault(want[key][1], 0)
+            hist['refusal_kinds_of_distinct_statements'][want[key][1]] += 1
+    cov = {'rejected_statement_histories': len(hs), 'rejected_history_distinct_statements': len(keys),
+           'rejected_history_histograms': hist, 'rejected_history_samples': [show_steps(h) for h in hs[:2]]}
+    return violations, cov
+
+
 def run(tier, rng):
     violations = []
     n_p = 700 if tier == 'quick' else 15000
@@ -669,6 +935,39 @@ def run(tier, rng):
         violations.append(core.Violation('params-as-literals', f'{ptext} {params!r}: with parameters {a}, with literals {b}',
                                          {'kind': 'ledger-param', 'ptext': ptext, 'params': params, 'with_params': a, 'with_literals': b},
                                          signature='ledger-params:' + ptext))
+    # list-valued parameters (IN / NOT IN %s): literal form and model; generated after every other stream has drawn from rng
+    lc = [gen_list_param_case(rng) for _ in range(250 if tier == 'quick' else 4000)]
+    l_impl = core.pmap(run_param_impl, lc)
+    l_model_cases = [c for c in lc if not c['wrap']]
+    lm = dict(zip([id(c) for c in l_model_cases],
+                  core.coq_eval('c09l', IMPORTS, [param_model_expr(c) for c in l_model_cases], shard=200)))
+    list_hist = {'named': 0, 'positional': 0, 'IN': 0, 'NOT IN': 0, 'in_subquery': 0, 'list_length': {}, 'element_type': {},
+                 'statements_that_ran': 0}
+    nlist = 0
+    for c, (wp, wl) in zip(lc, l_impl):
+        list_hist['named' if isinstance(c['params'], dict) else 'positional'] += 1
+        list_hist['NOT IN'] += ' NOT IN %' in c['ptext']
+        list_hist['IN'] += bool(re.search(r'(?<!NOT) IN %', c['ptext']))
+        list_hist['in_subquery'] += c['wrap']
+        list_hist['statements_that_ran'] += wp[0] == 0
+        for v in param_values(c):
+            if isinstance(v, list):
+                list_hist['list_length'][len(v)] = list_hist['list_length'].get(len(v), 0) + 1
+                tn = type(v[0]).__name__
+                list_hist['element_type'][tn] = list_hist['element_type'].get(tn, 0) + 1
+        m = lm.get(id(c))
+        bad = None
+        if wp != wl:
+            bad = f'with parameters {wp} but with the values written as literals ({c["ltext"]}) {wl}'
+        elif m is not None and wp != m:
+            bad = f'implementation {wp} but model with the values as constants {m}'
+        if bad and nlist < 3:
+            nlist += 1
+            sig = 'list-params:' + c['ptext'] + ' ' + repr(c['params']) + ' rows=' + repr(c['rows'])
+            violations.append(core.Violation('params-as-literals', f'{c["ptext"]} {c["params"]!r} over {c["rows"]}: {bad}',
+                                             param_record(c), signature=sig))
+    rviol, rcov = rejected_history_stream(tier, rng)
+    violations.extend(rviol)
     nph_hist, folded_n, hist_ops = {}, 0, {}
     for c, (wp, wl) in zip(pc, p_impl):
         nph_hist[c['nph']] = nph_hist.get(c['nph'], 0) + 1
@@ -721,12 +1020,21 @@ def run(tier, rng):
     nontrivial = len({c['ptext'] + repr(c['params']) for c in pc if c['nph'] >= 2}) + \
         len({show_history(h) for h in hs if sum(o[0] in ('exec_ast', 'exec_many') for o in h) >= 2})
     cov = {
-        'evaluations': len(pc) + len(fc) + len(hs) + nwork + len(bc) + len(sc) + len(lh), 'binding_order_cases': len(bc), 'same_cursor_histories': len(sc), 'ledger_histories': len(lh), 'distinct_nontrivial': nontrivial,
+        'evaluations': len(pc) + len(fc) + len(hs) + nwork + len(bc) + len(sc) + len(lh) + len(lc) + rcov['rejected_statement_histories'],
+        'list_parameter_cases': len(lc), 'list_parameter_histogram': list_hist, 'ledger_param_statements': nlp, **rcov,
+        'binding_order_cases': len(bc), 'same_cursor_histories': len(sc), 'ledger_histories': len(lh), 'distinct_nontrivial': nontrivial,
         'rule': '(a) random statements whose constants are replaced by %s / %(name)s placeholders (targets, WHERE, ORDER BY '
                 'expressions, wrapped in a subquery; repeated names) compared with the literal form and the model; (b) random constant '
                 'expressions evaluated folded vs per row from a one-row table of constant columns vs model; (c) random histories of '
                 'parse / execute(parsed) / execute(text) / executemany with valid and invalid parameter sets vs a fresh connection per '
-                'execution and vs Model/Params.v; (d) ledger entries deep-compared before/after a workload; non-trivial = distinct '
+                'execution and vs Model/Params.v; (a2) statements with a list-valued parameter as the right operand of IN / NOT IN '
+                '(positional and named, lists of 1-4 int / decimal / str / date elements, in targets, WHERE, ORDER BY and wrapped '
+                'subqueries) vs the list literal and the model; (c2) histories on one Beancount connection that contain statements '
+                'refused by the compiler after their FROM clause (every table, FROM subqueries, OPEN / CLOSE / CLEAR / FROM '
+                'expressions; unknown column, function, ORDER BY / GROUP BY index, misplaced aggregate) and PRINT, run through '
+                'Connection.execute, one shared cursor and Connection.compile (the shell route), interleaved with statements on the '
+                'default table: every step equals the step alone on a fresh connection in a fresh process; '
+                '(d) ledger entries deep-compared before/after a workload; non-trivial = distinct '
                 'statement with >=2 placeholders or history with >=2 executions of a stored/parsed-once statement',
         'samples': [pc[0]['ptext'] + ' ' + repr(pc[0]['params']), 'SELECT ' + fc[0]['littext'], show_history(hs[2])],
         'traces_validated_against_impl': len(hs), 'placeholder_count_histogram': nph_hist,
@@ -751,4 +1059,10 @@ def replay(rec):
         return res == exp and unchanged
     if rec.get('kind') == 'ledger':
         return ledger_immutable()[0]
+    if rec.get('kind') == 'param-case':
+        return replay_param_record(rec)
+    if rec.get('kind') == 'rejected-history':
+        steps = [tuple(x) for x in rec['steps']]
+        fresh = fresh_process_map(_fresh_step, [(_route(how), text) for how, text in steps])
+        return fresh_process_map(_rejected_history_got, [steps])[0] == fresh
     return True
